@@ -215,6 +215,15 @@ Proof. unfold leaf_unsafe. nf. Qed.
 Lemma node_format_nofuel h : nofuel (node_format h).
 Proof. unfold node_format. nf. Qed.
 
+Lemma format_of_nofuel h subs : nofuel (format_of h subs).
+Proof. unfold format_of. destruct (h_kind h); try apply node_format_nofuel. apply function_name_nofuel. Qed.
+
+Lemma self_safe_of_nofuel E T h subs : nofuel (self_safe_of E T h subs).
+Proof.
+  unfold self_safe_of. destruct (h_kind h); try apply self_safe_nofuel.
+  apply bind_nofuel; [apply function_name_nofuel|]. intros; apply nofuel_ok.
+Qed.
+
 Lemma concat_res_nofuel {A B} (f : A -> res (list B)) l :
   (forall x, In x l -> nofuel (f x)) -> nofuel (concat_res (map f l)).
 Proof.
@@ -348,8 +357,8 @@ Section WalkTerm.
     nofuel_s (walk E T skipped root (S fuel) path name level last (Node h subs)).
   Proof.
     intros Hs Hrec. cbn [walk].
-    apply s_lift_nofuel; [apply node_format_nofuel|]. intros val.
-    apply s_lift_nofuel; [apply self_safe_nofuel|]. intros ss.
+    apply s_lift_nofuel; [apply format_of_nofuel|]. intros val.
+    apply s_lift_nofuel; [apply self_safe_of_nofuel|]. intros ss.
     apply s_lift_nofuel; [destruct (h_kind h); try apply nofuel_ok; apply HU; exact Hs|]. intros u.
     apply s_cons_nofuel.
     destruct (is_skipped E skipped h); [apply s_ok_nofuel|].
